@@ -51,6 +51,9 @@ pub enum Op {
     /// add_named_vars with `k` fresh names followed by a duplicate: the call is rejected, but the
     /// `k` variables before the duplicate have been added (documented: `added_vars`)
     AddNamedVarsRejected(u32),
+    /// add_named_vars whose name iterator panics after `k` fresh names; the panic is caught and
+    /// the manager used further (the names consumed so far have been added, like on rejection)
+    AddNamedVarsPanicking(u32),
     /// `LevelView::gc()` on every level outside a prepared collection ("may be a no-op"): must
     /// not change anything an observer can see
     LevelGc,
@@ -96,6 +99,7 @@ impl Op {
             Op::AddVars(_) => "add_vars",
             Op::AddNamedVars(_) => "add_named_vars",
             Op::AddNamedVarsRejected(_) => "add_named_vars_rejected",
+            Op::AddNamedVarsPanicking(_) => "add_named_vars_panicking_iterator",
             Op::LevelGc => "level_gc",
             Op::SetOrder(_, false) => "set_var_order",
             Op::SetOrder(_, true) => "set_var_order_seq",
@@ -177,10 +181,11 @@ pub fn gen_op(rng: &mut Rng, n: u32, live: usize, has_quant: bool, p: &Profile) 
             86..=87 if p.zset && !has_quant => Op::ZSet(rng.below(6) as u32, h(rng), h(rng), rng.below(n as u64) as u32),
             88..=92 => Op::Clone(h(rng)),
             93..=94 if p.add_vars && n < p.max_vars => {
-                match rng.below(5) {
+                match rng.below(6) {
                     0 | 1 => Op::AddVars(rng.range(1, 2) as u32),
                     2 | 3 => Op::AddNamedVars(rng.range(1, 2) as u32),
-                    _ => Op::AddNamedVarsRejected(rng.range(1, 2) as u32),
+                    4 => Op::AddNamedVarsRejected(rng.range(1, 2) as u32),
+                    _ => Op::AddNamedVarsPanicking(rng.range(1, 2) as u32),
                 }
             }
             95..=99 if p.reorder && n >= 2 => {
@@ -313,7 +318,7 @@ where
         let n = self.n;
         let needs_handle = !matches!(
             op,
-            Op::Const(_) | Op::Var(_) | Op::NotVar(_) | Op::FromTable(_) | Op::Gc | Op::LevelGc | Op::AddVars(_) | Op::AddNamedVars(_) | Op::AddNamedVarsRejected(_) | Op::SetOrder(..) | Op::DropMany(_)
+            Op::Const(_) | Op::Var(_) | Op::NotVar(_) | Op::FromTable(_) | Op::Gc | Op::LevelGc | Op::AddVars(_) | Op::AddNamedVars(_) | Op::AddNamedVarsRejected(_) | Op::AddNamedVarsPanicking(_) | Op::SetOrder(..) | Op::DropMany(_)
         );
         if needs_handle && self.hs.is_empty() {
             return;
@@ -540,10 +545,27 @@ where
                 });
                 self.check_all_tables(ctx, "level_gc");
             }
-            Op::AddVars(k) | Op::AddNamedVars(k) | Op::AddNamedVarsRejected(k) => {
+            Op::AddVars(k) | Op::AddNamedVars(k) | Op::AddNamedVarsRejected(k) | Op::AddNamedVarsPanicking(k) => {
                 let k = *k;
                 let r = if matches!(op, Op::AddVars(_)) {
                     self.mref.with_manager_exclusive(|m| m.add_vars(k))
+                } else if matches!(op, Op::AddNamedVarsPanicking(_)) {
+                    let names: Vec<String> = (0..k).map(|i| format!("p{}_{}", self.name_counter, i)).collect();
+                    self.name_counter += 1;
+                    let it = names.clone().into_iter().chain(std::iter::once_with(|| -> String { panic!("name iterator gives up (deliberate, part of the workload)") }));
+                    let r = crate::ctx::catch(|| self.mref.with_manager_exclusive(|m| m.add_named_vars(it)));
+                    ctx.check(r.is_err(), &format!("{}:add_named_vars:panicking-iterator-not-propagated", K::NAME), || format!("{names:?}: {r:?}"));
+                    self.mref.with_manager_shared(|m| {
+                        ctx.check(m.num_vars() == n + k && m.num_levels() == n + k, &format!("{}:add_named_vars:after-panic:counts", K::NAME), || {
+                            format!("{names:?}: num_vars {} num_levels {} (had {n}, {k} names consumed before the panic)", m.num_vars(), m.num_levels())
+                        });
+                        for (i, nm) in names.iter().enumerate() {
+                            let v = n + i as u32;
+                            let got = m.name_to_var(nm);
+                            ctx.check(got == Some(v) && (v >= m.num_vars() || m.var_name(v) == nm), &format!("{}:add_named_vars:after-panic:name-lookup", K::NAME), || format!("name {nm}: name_to_var = {got:?}, want {v}"));
+                        }
+                    });
+                    n..n + k
                 } else if matches!(op, Op::AddNamedVarsRejected(_)) {
                     let mut names: Vec<String> = (0..k).map(|i| format!("r{}_{}", self.name_counter, i)).collect();
                     names.push(names[0].clone()); // duplicate within the batch: everything before it stays
